@@ -197,6 +197,14 @@ func (sc *c16CKKS) runE2S(d *c16Deploy, ct *rlwe.Ciphertext) bool {
 	e2s := make([]mpckks.EncToShareProtocol, d.n)
 	s2e := make([]mpckks.ShareToEncProtocol, d.n)
 	secret := make([]multiparty.AdditiveShareBigint, d.n)
+	// additive shares are allocated for the slots of the ciphertext or, one run in three, with room
+	// to spare (an object allocated for more slots, up to the maximum, used for a sparser
+	// ciphertext): the protocol works on the coefficients the ciphertext defines
+	shareLogSlots := ct.LogSlots()
+	if room := cp.LogMaxSlots() - ct.LogSlots(); room > 0 && ch.Chance("share-with-room", 1, 3) {
+		shareLogSlots += 1 + ch.Draw("share-room", room)
+		ctx.Count("probe.share-with-room", 1)
+	}
 	pub := make([]any, d.n)
 	c1 := re.NewPoly()
 	c1.CopyLvl(e2sLevel, ct.Value[1])
@@ -210,7 +218,7 @@ func (sc *c16CKKS) runE2S(d *c16Deploy, ct *rlwe.Ciphertext) bool {
 			e2s[i], _ = mpckks.NewEncToShareProtocol(cp, d.noise)
 			s2e[i], _ = mpckks.NewShareToEncProtocol(cp, d.noise)
 		}
-		secret[i] = mpckks.NewAdditiveShare(cp, ct.LogSlots())
+		secret[i] = mpckks.NewAdditiveShare(cp, shareLogSlots)
 		ps := e2s[i].AllocateShare(e2sLevel)
 		var gerr error
 		pk, site, msg := core.Protect(func() { gerr = e2s[i].GenShare(d.sks[i], sc.logBound, ct, &secret[i], &ps) })
@@ -244,7 +252,7 @@ func (sc *c16CKKS) runE2S(d *c16Deploy, ct *rlwe.Ciphertext) bool {
 	if !ok {
 		return false
 	}
-	fin := mpckks.NewAdditiveShare(cp, ct.LogSlots())
+	fin := mpckks.NewAdditiveShare(cp, shareLogSlots)
 	pk, site, msg := core.Protect(func() { e2s[0].GetShare(&secret[0], *agg.(*multiparty.KeySwitchShare), ct, &fin) })
 	if pk {
 		ctx.Fail("panic", "ckks.EncToShare.GetShare", "GetShare panicked in %s: %s", site, msg)
@@ -253,7 +261,7 @@ func (sc *c16CKKS) runE2S(d *c16Deploy, ct *rlwe.Ciphertext) bool {
 	// a party that holds no mask (secretShare == nil) obtains x - sum(M_i); the value it is
 	// handed must stay what it is when the protocol object is used again
 	{
-		pubOnly := mpckks.NewAdditiveShare(cp, ct.LogSlots())
+		pubOnly := mpckks.NewAdditiveShare(cp, shareLogSlots)
 		pk, site, msg := core.Protect(func() { e2s[0].GetShare(nil, *agg.(*multiparty.KeySwitchShare), ct, &pubOnly) })
 		if pk {
 			ctx.Fail("panic", "ckks.EncToShare.GetShare(nil)", "GetShare without own share panicked in %s: %s", site, msg)
@@ -264,7 +272,7 @@ func (sc *c16CKKS) runE2S(d *c16Deploy, ct *rlwe.Ciphertext) bool {
 			snap[k] = new(big.Int).Set(pubOnly.Value[k])
 		}
 		// second use of the same protocol object with another aggregate
-		other := mpckks.NewAdditiveShare(cp, ct.LogSlots())
+		other := mpckks.NewAdditiveShare(cp, shareLogSlots)
 		e2s[0].GetShare(nil, *pub[0].(*multiparty.KeySwitchShare), ct, &other)
 		ctx.Count("oracle.returned-share-not-aliased", 1)
 		for k := range snap {
